@@ -253,28 +253,13 @@ def visited_nodes(M, o):
 # ---------------------------------------------------------------- classifiers (mirrored by Lean `Known…` predicates)
 
 def fixed(M, n):
-    """visiting n again cannot change it: no node below is a key, no MultiConditional body is empty"""
-    for x in preorder(n):
-        if x in M:
-            return False
-        if x[0] == 'mcond' and any(b == () for b in x[2][:-1]):
-            return False
-    return True
+    """visiting n again cannot change it: no node below is a key"""
+    return all(x not in M for x in preorder(n))
 
 
 def known_revisit(M):
     """some one-to-many value contains a node other than its key that a second visit would change"""
     return any(h is not None and h[0] == 'tuple' and any(x != k and not fixed(M, x) for x in h[1]) for k, h in M.items())
-
-
-def known_mcond(M, o, nested=False):
-    """some MultiConditional of the tree (or of a spliced node) has a case body that the mapping makes empty"""
-    spec_list = (lambda M, b: tuple(x for n in b for x in spec_nested(M, n))) if nested else globals()['spec_list']
-    cands = list(preorder_l(o))
-    for h in M.values():
-        if h is not None and h[0] == 'tuple':
-            cands += list(preorder_l(h[1]))
-    return any(x[0] == 'mcond' and any(spec_list(M, b) == () for b in x[2][:-1]) for x in cands)
 
 
 def known_nested(M):
@@ -382,21 +367,25 @@ class C14(Prop):
     driver = 'Drivers/C14.lean'
     theorems = ['C14_transformer_eq_spec_partial', 'C14_transformer_node_eq_spec_partial', 'C14_transformer_full_false',
                 'C14_inject_is_parallel_substitution', 'C14_noninplace_preserves_original_partial',
-                'C14_noninplace_full_false', 'C14_rebuilt_covers_partial', 'C14_rebuilt_full_false', 'C14_tables_agree']
+                'C14_noninplace_full_false', 'C14_rebuilt_covers_partial', 'C14_rebuilt_full_false',
+                'C14_spec_keeps_child_positions', 'C14_nested_eq_spec_partial', 'C14_nested_node_eq_spec_partial',
+                'C14_nested_full_false', 'C14_tables_agree']
     design_ref = 'DESIGN.md 4.B C14'
     level_text = ('Theorems (Lean kernel; all mappers, all trees over nine node classes, all inplace/rebuild_scopes settings, no size bound) '
                   'about a value-level model of Transformer.visit_Node/visit_ScopedNode/visit_tuple/_inject_tuple_mapping/_rebuild against an '
                   'independent structural reference rebuild (Spec.lean, written from the class docstring). PARTIAL, not full: the full '
                   'statement is refuted by a kernel-checked witness (C14_transformer_full_false); C14_transformer_eq_spec_partial and '
                   'C14_transformer_node_eq_spec_partial prove termination-without-exception and result = reference rebuild for every input '
-                  'outside two decidable classes (a one-to-many value containing a node, other than its key, that a second visit would change; '
-                  'a MultiConditional with a case body the mapping makes empty). C14_inject_is_parallel_substitution: the sequential tail-rescanning '
+                  'outside one decidable class (a one-to-many value containing a node, other than its key, that a second visit would change); '
+                  'a second class (MultiConditional case body made empty was dropped) was repaired by a fix: commit, its hypothesis removed, '
+                  'the old filter kept as a regression statement in Findings/C14.lean. C14_inject_is_parallel_substitution: the sequential tail-rescanning '
                   'injection equals the parallel substitution. C14_noninplace_preserves_original_partial: without inplace every object of the '
                   'original keeps its value unless rebuild_scopes is off and the tree contains a scoped node (full statement refuted by '
                   'C14_noninplace_full_false). C14_rebuilt_covers_partial: without in-place updates every node of the original that has a '
                   'counterpart in the new tree (not below a replaced node, not spliced away) has an entry in rebuilt; the literal docstring '
-                  'reading (every node) is refuted by C14_rebuilt_full_false and read as intended. NOT proved, only checked by correspondence '
-                  'and the direct oracle on generated inputs: NestedTransformer (modelled for same-class replacements, no theorem). '
+                  'reading (every node) is refuted by C14_rebuilt_full_false and read as intended. C14_nested_eq_spec_partial / C14_nested_node_eq_spec_partial: for every mapper whose values are None or the key itself with '
+                  'other non-traversable attributes, NestedTransformer terminates and its result satisfies the depth-first reference relation '
+                  'NSpecL (full statement refuted by C14_nested_full_false: {a1: a2} returns a1). '
                   'MaskedTransformer is not covered at all.')
     level_note = ('Model is hand-written and value-level: object identity is represented only through the post-state component, exact for '
                   'alias-free inputs (each object once in the tree, replacement nodes fresh, a one-to-many value mentions its key through the '
@@ -432,7 +421,7 @@ class C14(Prop):
         return {'LokiModel/Generated/C14Tables.lean': '\n'.join(body)}
 
     def gen(self, rng, tier):
-        n = {'quick': 700, 'thorough': 12000, 'search': 5000}.get(tier, 700)
+        n = {'quick': 500, 'thorough': 12000, 'search': 5000}.get(tier, 500)
         seen = set()
         for i in range(n):
             which = 'nested' if i % 5 == 4 else 'plain'
@@ -473,12 +462,9 @@ class C14(Prop):
         except RecursionError:
             return []          # the nested reference does not terminate on this mapper: outside the statement
         if nested:
-            cls = 'nested-replacement-built-from-key' if known_nested(M) else \
-                ('multiconditional-empty-body-dropped' if known_mcond(M, forest, True) else None)
+            cls = 'nested-replacement-built-from-key' if known_nested(M) else None
         elif known_revisit(M):
             cls = 'spliced-nodes-revisited'
-        elif known_mcond(M, forest):
-            cls = 'multiconditional-empty-body-dropped'
         else:
             cls = None
         if out[0] == 'error':
@@ -502,8 +488,7 @@ class C14(Prop):
         return fails
 
     def classes(self):
-        return ['scoped-node-updated-in-place', 'multiconditional-empty-body-dropped', 'spliced-nodes-revisited',
-                'nested-replacement-built-from-key']
+        return ['scoped-node-updated-in-place', 'spliced-nodes-revisited', 'nested-replacement-built-from-key']
 
 
 def show(o):
